@@ -127,7 +127,7 @@ func (d *Downstream) closeWithError(ctx context.Context, cause error) (err error
 		}
 	}
 
-	resp, err := d.wireConn.SendDownstreamCloseRequest(ctx, &message.DownstreamCloseRequest{
+	resp, err := d.currentWireConn().SendDownstreamCloseRequest(ctx, &message.DownstreamCloseRequest{
 		StreamID: d.ID,
 	})
 	if err != nil {
@@ -180,6 +180,13 @@ func (d *Downstream) ReadDataPoints(ctx context.Context) (*DownstreamChunk, erro
 }
 
 // ReadMetadataは、ダウンストリームメタデータを受信します。
+// currentWireConn returns the wire connection the stream is attached to; resume replaces it.
+func (d *Downstream) currentWireConn() *wire.ClientConn {
+	d.mu.RLock()
+	defer d.mu.RUnlock()
+	return d.wireConn
+}
+
 func (d *Downstream) ReadMetadata(ctx context.Context) (*DownstreamMetadata, error) {
 	select {
 	case <-d.ctx.Done():
@@ -187,7 +194,7 @@ func (d *Downstream) ReadMetadata(ctx context.Context) (*DownstreamMetadata, err
 	case <-ctx.Done():
 		return nil, ctx.Err()
 	case meta := <-d.metadataCh:
-		if err := d.wireConn.SendDownstreamMetadataAck(ctx, &message.DownstreamMetadataAck{
+		if err := d.currentWireConn().SendDownstreamMetadataAck(ctx, &message.DownstreamMetadataAck{
 			RequestID:    meta.RequestID,
 			ResultCode:   message.ResultCodeSucceeded,
 			ResultString: "OK",
@@ -535,16 +542,20 @@ func (d *Downstream) resume(parentConn *Conn) error {
 	if !d.state.Is(streamStatusResuming) {
 		return fmt.Errorf("invalid state want[%v] but[%v]", streamStatusResuming, d.state)
 	}
-	d.wireConn = parentConn.wireConn
+	// d.wireConn is read under d.mu by calls made on the application's goroutines (ReadMetadata, Close)
+	wireConn := parentConn.wireConn
+	d.mu.Lock()
+	d.wireConn = wireConn
+	d.mu.Unlock()
 
 	var resErr error
 	retry.Do(func() (end bool) {
-		dpsCh, err := d.wireConn.SubscribeDownstreamChunk(d.ctx, d.idAlias, d.Config.QoS)
+		dpsCh, err := wireConn.SubscribeDownstreamChunk(d.ctx, d.idAlias, d.Config.QoS)
 		if err != nil {
 			resErr = fmt.Errorf("failed to SubscribeDownstreamChunk: %w", err)
 			return true
 		}
-		ackCompCh, err := d.wireConn.SubscribeDownstreamChunkAckComplete(d.ctx, d.idAlias)
+		ackCompCh, err := wireConn.SubscribeDownstreamChunkAckComplete(d.ctx, d.idAlias)
 		if err != nil {
 			resErr = fmt.Errorf("failed to SubscribeDownstreamChunkAckComplete: %w", err)
 			return true
@@ -556,7 +567,7 @@ func (d *Downstream) resume(parentConn *Conn) error {
 			return true
 		}
 
-		resp, err := d.wireConn.SendDownstreamResumeRequest(d.ctx, &message.DownstreamResumeRequest{
+		resp, err := wireConn.SendDownstreamResumeRequest(d.ctx, &message.DownstreamResumeRequest{
 			StreamID:             d.ID,
 			DesiredStreamIDAlias: d.idAlias,
 		})
